@@ -149,7 +149,8 @@ class Unit:
         r = run([os.path.join(self.dir, 'nat_real')], stdin='%s %s\n' % (harness, ' '.join(map(str, vs))), timeout=120, env=env_real)
         txt = r['out'] + r['err']
         confirmed = ('FAIL ' in r['out']) or ('AddressSanitizer' in txt) or ('runtime error' in txt) or (r['rc'] not in (0, 1) and ' SKIP' not in r['out'])
-        skipped = ' SKIP' in r['out']
+        # an assumption that fails only AFTER a CHECK has already failed on this concrete run does not take the failure back
+        skipped = ' SKIP' in r['out'] and 'FAIL ' not in r['out'].split(' SKIP')[0]
         return dict(confirmed=confirmed and not skipped, skipped=skipped, out=r['out'][-1500:], err=r['err'][-2500:], rc=r['rc'], vector=vs)
 
 
